@@ -490,7 +490,7 @@ func (self *PathNode) handleChild(in *[]PathNode, lp *int, cp *int, p *binary.Bi
 				// parentDesc = desc.Message()
 				var err error
 				messageLen, err = p.ReadLength() // the sub message has message byteLen need to read before next recurse for scanChildren
-				if messageLen <= 0 || err != nil {
+				if messageLen < 0 || err != nil {
 					return nil, wrapError(meta.ErrRead, "read message length failed", err)
 				}
 			}
